@@ -131,6 +131,7 @@ func RunOneInto(t *testing.T, fam *Family, params any, seed uint64, o RunOpts, r
 		} else {
 			e.W = simhook.NewWorld()
 			e.W.OrderFn = e.order
+			e.W.MapOrderFn = e.mapOrder
 		}
 		e.start = time.Now()
 		defer simhook.EndWorld()
